@@ -4,6 +4,7 @@
 package vsync
 
 import (
+	"fmt"
 	"sync"
 
 	"gonum.org/v1/gonum/internal/verif/vsched"
@@ -143,8 +144,18 @@ var Policy PoolPolicy
 // harnesses use it to fill returned workspaces with poison.
 var Scrub func(x any)
 
+// Ident, when non-nil, maps a pooled item to the identity of the storage it owns (e.g. the address of the
+// first element of the backing array of a *[]float64). Under PoolDirty an item whose storage is already in
+// the pool when it is put back is a double release: it is counted in PoolStats.DoublePuts, the first one is
+// described in FirstDoublePut, and the item is pooled anyway (faithful to sync.Pool, so that the sharing that
+// follows is observable too). 0 means "no identity" (never compared).
+var Ident func(x any) uintptr
+
+// FirstDoublePut describes the first double release seen since it was last cleared.
+var FirstDoublePut string
+
 // PoolStats counts pool traffic.
-var PoolStats struct{ Gets, News, Reuses, Puts int }
+var PoolStats struct{ Gets, News, Reuses, Puts, DoublePuts int }
 
 // Pool is the twin of sync.Pool.
 type Pool struct {
@@ -198,10 +209,17 @@ func (p *Pool) Put(x any) {
 		if Scrub != nil {
 			Scrub(x)
 		}
+		var id uintptr
+		if Ident != nil {
+			id = Ident(x)
+		}
 		for _, it := range p.items {
-			if it == x {
-				p.mu.Unlock()
-				panic("vsync.Pool: the same item was put twice (double release)")
+			if it == x || (id != 0 && Ident(it) == id) {
+				PoolStats.DoublePuts++
+				if FirstDoublePut == "" {
+					FirstDoublePut = fmt.Sprintf("a %T whose storage is already in the pool was put back again (double release)", x)
+				}
+				break
 			}
 		}
 		p.items = append(p.items, x)
